@@ -117,13 +117,15 @@ def expand_state(job, acc: Acc):
         ))
     acc.states.add(core.h64(text))
     if collect:
-        acc.counters.setdefault("_succ", set()).update(succ)
+        acc.succ.extend(succ)
     if len(acc.samples) < 2:
         acc.sample({"state": text, "example_change": ch})
 
 
 def _merge_succ(acc):
-    return acc.counters.pop("_succ", set())
+    out = set(acc.succ)
+    acc.succ = []
+    return out
 
 
 def bfs_unit(ctx, depth_full, depth_reduced):
@@ -158,23 +160,6 @@ def bfs_unit(ctx, depth_full, depth_reduced):
             break
     total.counters["transitions"] = transitions
     return total, len(seen), transitions
-
-
-def _succ_merge_patch():
-    # Acc.merge sums counters; the successor set needs set-union instead.
-    orig = Acc.merge
-
-    def merge(self, o):
-        s = o.counters.pop("_succ", None)
-        orig(self, o)
-        if s is not None:
-            self.counters.setdefault("_succ", set()).update(s)
-            o.counters["_succ"] = s
-
-    Acc.merge = merge
-
-
-_succ_merge_patch()
 
 
 def _pmap_states(jobs):
